@@ -634,7 +634,13 @@ class QvmCpu:
 
         bounds.reverse()
 
-        array = Array(element_size, bounds)
+        try:
+            array = Array(element_size, bounds)
+        except (MemoryError, OverflowError):
+            # QBASIC reports an array it cannot allocate the same way
+            self.trap(
+                TrapCode.INDEX_OUT_OF_RANGE,
+                msg='Array is too large')
         ref = Reference(segment=array, index=0)
         self.push(CellType.REFERENCE, ref)
 
